@@ -426,4 +426,20 @@ theorem build_perm (h : LawfulCmp cmp) (q : K × V → Bool) {xs m : Map K V} (h
   rw [h2 y, List.mem_filter, hp.mem_iff]
   simp
 
+/-! ### `get` at a node of a sorted listing -/
+
+theorem get_append_of_none (key : K) (L M : Map K V) (hL : ∀ x ∈ L, cmp key x.1 ≠ 0) :
+    Spec.get cmp key (L ++ M) = Spec.get cmp key M := by
+  unfold Spec.get
+  rw [List.find?_append, List.find?_eq_none.2 (fun x hx => by simpa using hL x hx)]
+  rfl
+
+theorem get_append_of_none_right (key : K) (L M : Map K V) (hM : ∀ x ∈ M, cmp key x.1 ≠ 0) :
+    Spec.get cmp key (L ++ M) = Spec.get cmp key L := by
+  unfold Spec.get
+  have : M.find? (fun p => cmp key p.1 == 0) = none :=
+    List.find?_eq_none.2 (fun x hx => by simpa using hM x hx)
+  rw [List.find?_append, this]
+  simp
+
 end AlgoVerif.C01
